@@ -276,6 +276,7 @@ class PoolCtx:
         self.resized_idle = False
         self.last_start_idx = None
         self.rejected_starts = 0
+        self.last_set_seq = None
         self.progress_off = False    # pool_size was assigned while spawners were waiting (F-SIZE region): only limits are checked
 
 
@@ -490,7 +491,7 @@ class Sim:
             self.violate("C11", "pool_names_distinct", f"pool names collide: {names}")
         for pc in self.pools:
             pcfg = pc.cfg
-            exp_cls = "SimpleTaskPool" if pc.cls == "S" else "TaskPool"
+            exp_cls = "LimitedPool" if pcfg.get("sub") else ("SimpleTaskPool" if pc.cls == "S" else "TaskPool")
             if pcfg.get("name") and pc.pool_str != f"{exp_cls}-{pcfg['name']}":
                 self.violate("C11", "pool_name", f"{pc.pool_str!r} for name {pcfg['name']!r}")
 
@@ -502,6 +503,12 @@ class Sim:
             kw["pool_size"] = size
         if pcfg.get("name") is not None:
             kw["name"] = pcfg["name"]
+        T, S = pmod.TaskPool, pmod.SimpleTaskPool
+        if pcfg.get("sub"):
+            # a class factory: every such pool gets a class of its own, and they all carry the same __name__
+            T = type("LimitedPool", (pmod.TaskPool,), {})
+            S = type("LimitedPool", (pmod.SimpleTaskPool,), {})
+            self.stats["probe:pool_of_factory_made_class"] += 1
         if pcfg["cls"] == "S":
             pc = PoolCtx(i, None, "S", size, pcfg)
             func = self._make_func(pc, pcfg.get("fk", "sync"),
@@ -510,13 +517,13 @@ class Sim:
             pc.payload_args, pc.payload_kwargs = self._make_payload(("S", i), pcfg.get("ash", 0))
             pc.ecb_kind = pcfg.get("ecb")
             pc.ccb_kind = pcfg.get("ccb")
-            pool = pmod.SimpleTaskPool(
+            pool = S(
                 func, args=pc.payload_args, kwargs=pc.payload_kwargs,
                 end_callback=self._make_cb(pc, "ecb", pc.ecb_kind),
                 cancel_callback=self._make_cb(pc, "ccb", pc.ccb_kind), **kw)
             pc.pool = pool
         else:
-            pool = pmod.TaskPool(**kw)
+            pool = T(**kw)
             pc = PoolCtx(i, pool, "T", size, pcfg)
         pc.pool_str = str(pool)
         pc.live_names = {}
@@ -533,7 +540,7 @@ class Sim:
         live = [p.pool_str for p in self.pools[:i] if not p.closed]
         if pc.pool_str in live and not pcfg.get("name"):
             self.violate("C11", "pool_names_distinct", f"new pool is named {pc.pool_str!r} like a pool that is still open")
-        exp_cls = "SimpleTaskPool" if pc.cls == "S" else "TaskPool"
+        exp_cls = "LimitedPool" if pcfg.get("sub") else ("SimpleTaskPool" if pc.cls == "S" else "TaskPool")
         if pcfg.get("name") and pc.pool_str != f"{exp_cls}-{pcfg['name']}":
             self.violate("C11", "pool_name", f"{pc.pool_str!r} for name {pcfg['name']!r}")
         if any(p.closed for p in self.pools[:i]):
@@ -2198,6 +2205,7 @@ class Sim:
             pc.set_while_busy = True
         pc.limit = v
         pc.size = v
+        pc.last_set_seq = self.tick()
         pc.hi = pc.n_run          # running count may stay above a lowered limit, but must not grow
         if pc.live != self._live_before_set(pc):
             pass
@@ -2262,6 +2270,9 @@ class Sim:
                 if ek is not None and t.ecb_calls != 1:
                     self.violate("C02", "ecb_count", f"end callback ran {t.ecb_calls}x for {t.name}")
                     self.violate("C03", "ecb_count", f"end callback ran {t.ecb_calls}x for {t.name}")
+                    if pc.size_changed and not t.early:
+                        self.violate("C15", "running_task_disturbed", f"pool_size was assigned while {t.name} was in the pool: its end callback ran {t.ecb_calls}x "
+                                     "(an assignment disturbs no running task)")
                 exp_c = 1 if (t.exit_how == "cancel" and ck is not None) else 0
                 if t.ccb_calls != exp_c:
                     self.violate("C03", "ccb_count", f"cancel callback ran {t.ccb_calls}x for {t.name} (coroutine ended by {t.exit_how})")
@@ -2279,6 +2290,15 @@ class Sim:
                     self.violate("C15", "getter_idle_after_history", f"end of run: pool_size={got} on the idle pool {pc.pool_str}, configured maximum {exp}")
             if pc.n_run:
                 self.violate("C02", "running_at_end", f"end of run: {pc.n_run} tasks still counted as running")
+            if pc.size_changed and pc.last_set_seq is not None and not pc.closed and not any(t.early for t in pc.tasks):
+                # after an assignment made while spawners were waiting, a task ended (a slot was handed back): whoever waited for
+                # room must have been woken by that, whatever the recorded finding F-SIZE does to the numbers
+                ended_after = any(t.seq_exit is not None and t.seq_exit > pc.last_set_seq for t in pc.tasks)
+                stuck = [r for r in pc.reqs if r.accepted_seq is not None and r.work_left() and not r.spawner_done()]
+                lim = pc.limit
+                if ended_after and stuck and pc.n_run == 0 and pc.n_C == 0 and (lim is None or lim > 0):
+                    self.violate("C15", "waiter_never_woken", f"end of run: r{stuck[0].label} still waits for room in the empty pool {pc.pool_str} although tasks "
+                                 f"ended after pool_size={lim} was assigned")
             for r in pc.reqs:
                 if r.accepted_seq is None or r.cancelled_seq is not None or r.probe:
                     continue
